@@ -34,6 +34,10 @@ type Step struct {
 //	                session id while the workload runs (spam: at a drawn rate for sequence 1 / its last
 //	                received sequence / a future sequence; lossy: protocol-following reader that drops
 //	                every n-th message and NACKs the gap), optionally acknowledging
+//	reconnect_storm 1-4 goroutines that open StreamWAL and cancel it again in a tight loop (sessions are
+//	                registered and unregistered hundreds of times per second) from AttachAt until the end of
+//	                the workload, with a heartbeat interval of 1-5 ms (no empty heartbeat messages), so that
+//	                the heartbeat monitor walks the session table continuously
 //	none            no faulty replica (baseline for the latency oracle)
 type Fault struct {
 	Class     string    `json:"class"`
@@ -41,6 +45,7 @@ type Fault struct {
 	TriggerAt int       `json:"trigger_at"` // tcp_*: the proxy misbehaves before this step (>= AttachAt)
 	SleepMs   int       `json:"sleep_ms,omitempty"`
 	Nack      *NackSpec `json:"nack,omitempty"`
+	Storm     int       `json:"storm,omitempty"` // reconnect_storm: goroutines
 }
 
 // NackSpec parameterises the nack_sender class.
@@ -101,13 +106,13 @@ func genCase(t *rapid.T) Case {
 	var c Case
 	c.Keys = gen.Keys(t, 6, 24)
 	nk := len(c.Keys)
-	classes := []string{"stalled_reader", "stalled_reader", "tcp_stall", "tcp_stall", "tcp_reset", "tcp_reset", "no_ack", "no_ack", "slow_apply", "slow_apply", "tcp_stall_quiet", "tcp_stall_quiet", "nack_sender", "nack_sender", "nack_sender", "nack_sender", "none"}
+	classes := []string{"stalled_reader", "stalled_reader", "tcp_stall", "tcp_stall", "tcp_reset", "tcp_reset", "no_ack", "no_ack", "slow_apply", "slow_apply", "tcp_stall_quiet", "tcp_stall_quiet", "nack_sender", "nack_sender", "nack_sender", "nack_sender", "reconnect_storm", "reconnect_storm", "reconnect_storm", "none"}
 	cls := rapid.SampledFrom(classes).Draw(t, "fault")
 	if f := faultFlag[cls]; f != "" && !ev.Flag(f) {
 		ev.R().Exclude(f)
 		// redirect to the classes that are still allowed
 		allowed := []string{"none"}
-		for _, alt := range []string{"tcp_reset", "tcp_reset", "no_ack", "no_ack", "slow_apply", "slow_apply", "tcp_stall", "tcp_stall", "stalled_reader", "stalled_reader", "tcp_stall_quiet", "tcp_stall_quiet", "nack_sender", "nack_sender", "nack_sender", "nack_sender"} {
+		for _, alt := range []string{"tcp_reset", "tcp_reset", "no_ack", "no_ack", "slow_apply", "slow_apply", "tcp_stall", "tcp_stall", "stalled_reader", "stalled_reader", "tcp_stall_quiet", "tcp_stall_quiet", "nack_sender", "nack_sender", "nack_sender", "nack_sender", "reconnect_storm", "reconnect_storm", "reconnect_storm"} {
 			if faultFlag[alt] == "" || ev.Flag(faultFlag[alt]) {
 				allowed = append(allowed, alt)
 			}
@@ -200,6 +205,12 @@ func genCase(t *rapid.T) Case {
 	c.HB.IntervalMs = rapid.SampledFrom([]int{100, 200, 500}).Draw(t, "hbint")
 	c.HB.TimeoutMs = rapid.SampledFrom([]int{1000, 1000, 2000}).Draw(t, "hbto")
 	c.HB.SendEmpty = rapid.IntRange(0, 3).Draw(t, "hbempty") != 0
+	if cls == "reconnect_storm" {
+		c.Fault.Storm = rapid.IntRange(1, 4).Draw(t, "storm_goroutines")
+		c.HB.IntervalMs = rapid.IntRange(1, 5).Draw(t, "hbint_storm")
+		c.HB.TimeoutMs = 2000
+		c.HB.SendEmpty = false // thousands of empty messages per second would only measure the replicas' read rate
+	}
 	if cls == "tcp_stall_quiet" {
 		c.Fault.AttachAt, c.Fault.TriggerAt = 0, 0
 		c.HB.SendEmpty = rapid.Bool().Draw(t, "hbempty_quiet")
